@@ -68,3 +68,11 @@ impl LuaIndex for JsonSchemaIndex {
         // TODO clear all schema index
     }
 }
+
+#[cfg(feature = "verif-hooks")]
+impl JsonSchemaIndex {
+    /// verif hook H1: entry counts of every map of this index
+    pub fn verif_sizes(&self, out: &mut Vec<(String, usize)>) {
+        out.push(("schema.schema_files".into(), self.schema_files.len()));
+    }
+}
